@@ -181,6 +181,47 @@ impl<T> TooDeeOpsMut<T> for Plain<T> {
 }
 impl<T> CopyOps<T> for Plain<T> {}
 
+/// A third-party read-only implementor that has a width but no rows yet: `size()` is (width, 0).
+pub struct Lines<T> {
+    pub width: usize,
+    pub inner: TooDee<T>,
+}
+impl<T> Index<usize> for Lines<T> {
+    type Output = [T];
+    fn index(&self, r: usize) -> &[T] {
+        &self.inner[r]
+    }
+}
+impl<T> Index<Coordinate> for Lines<T> {
+    type Output = T;
+    fn index(&self, c: Coordinate) -> &T {
+        &self.inner[c]
+    }
+}
+impl<T> TooDeeOps<T> for Lines<T> {
+    fn num_cols(&self) -> usize {
+        self.width
+    }
+    fn num_rows(&self) -> usize {
+        0
+    }
+    fn view(&self, s: Coordinate, e: Coordinate) -> TooDeeView<'_, T> {
+        self.inner.view(s, e)
+    }
+    fn rows(&self) -> Rows<'_, T> {
+        self.inner.rows()
+    }
+    fn col(&self, c: usize) -> Col<'_, T> {
+        self.inner.col(c)
+    }
+    unsafe fn get_unchecked_row(&self, r: usize) -> &[T] {
+        self.inner.get_unchecked_row(r)
+    }
+    unsafe fn get_unchecked(&self, c: Coordinate) -> &T {
+        self.inner.get_unchecked(c)
+    }
+}
+
 #[derive(Clone, Debug)]
 pub struct Win {
     pub m: bool,
@@ -451,6 +492,11 @@ macro_rules! def_mut_call {
                     let s = TooDee::from_vec(snc, snr, src);
                     let v = s.view((0, 0), (snc, snr));
                     if is_copy { T::copy_from_toodee_on(recv, &v) } else { recv.clone_from_toodee(&v); true }
+                }
+                "lines" => {
+                    // a third-party source reporting (snc, 0)
+                    let s = Lines { width: snc, inner: TooDee::<T>::default() };
+                    if is_copy { T::copy_from_toodee_on(recv, &s) } else { recv.clone_from_toodee(&s); true }
                 }
                 _ => {
                     // a strided source: the cells sit at offset (1,1) of a larger array
